@@ -69,6 +69,8 @@ def procEventJson : ProcEvent → Json
 def errJson : Err → Json
   | .notFound n => Json.mkObj [("err", "not-found"), ("name", ofChars n)]
   | .cycle n => Json.mkObj [("err", "cycle"), ("name", ofChars n)]
+  | .tooDeep n => Json.mkObj [("err", "too-deep"), ("name", ofChars n)]
+  | .tooMany n => Json.mkObj [("err", "too-many"), ("name", ofChars n)]
   | .fuel => Json.mkObj [("err", "fuel")]
 
 /-- `Certificate::get_hooks` / `Account::get_hooks` + the file / certificate split + (optionally)
